@@ -17,21 +17,35 @@
  *   mode byte: bits 0-1 mode, bits 2-4 Elias bit slack in raw mode (declared
  *              bits = 8*len - slack), bits 5-7 array size class
  *   cap: output capacity selector (0 = exactly enough; see pick_cap); for the
- *        bitmap entry it selects the container the valid encoding uses
+ *        bitmap entry (cap & 3) == 3 builds the set with one long AddRange
+ *        instead of single adds
  *
  * Every input is an exact-size heap copy (length 0 => 1-byte block, declared
  * length 0), every output an exact-capacity block.
  *
  * oracle: no sanitizer report / crash / timeout (framework); in the `oom`
  * build no single allocation request above 8 MiB + 64*len; nothing written
- * past the output capacity; returned counts fit the declared input (one index
- * byte per dictionary value, one bit per Elias code, two bytes per RLE run,
- * container bytes of a decoded bitmap); on a prefix of a valid encoding a
- * successful decoder returns a correct prefix; the complete valid encoding
- * round-trips; varintTaggedGet returns 0 exactly when n < announced length
- * and otherwise the reference value.  Independence from bytes/bits outside
- * the declared input is additionally checked differentially (Elias padding
- * bits in the last byte; in builds without ASan the bytes after the input). */
+ * past the output capacity, no count above the capacity; an Elias decoder
+ * returns no more values than declared bits (every Elias code has >= 1 bit);
+ * on a prefix of an encoding PRODUCED BY THE LIBRARY'S OWN ENCODER a successful
+ * decoder returns a correct prefix (arrays: the first values of the input;
+ * bitmap: a subset of the encoded set; run counter: no more runs than start
+ * inside the prefix); the complete library-produced encoding round-trips;
+ * varintTaggedGet returns 0 exactly when n < announced length and otherwise
+ * the reference value (the tagged family is the one wire format a property
+ * fixes: C04).  Independence from bytes/bits outside the declared input is
+ * additionally checked differentially (Elias padding bits in the last byte;
+ * in builds without ASan the bytes after the input).
+ *
+ * What is deliberately NOT assumed (no property fixes the wire format of the
+ * array codecs or of the bitmap serialisation, and C08 makes the container
+ * unobservable): nothing is parsed out of a payload by the harness in order
+ * to judge a result, decoded bitmaps are looked at only through
+ * varintBitmapCardinality / the iterator, and a byte string that was not
+ * produced by the library's encoder (raw, mutated, hostile) is arbitrary
+ * input whatever it looks like: only the crash / over-read / over-write /
+ * allocation / termination oracles apply to it.  Format knowledge is used to
+ * GENERATE hostile inputs only. */
 #define VF_ALLOC_NO_RENAME 1
 #include "vf.h"
 #include "vf_alloc.h"
@@ -80,7 +94,7 @@ enum {
     K_TRUNCATED,
     K_FULLLENGTH,
     K_FULLVALID,
-    K_UNKNOWNTYPE,
+    K_PADUNKNOWN,
     K_COUNT
 };
 
@@ -97,7 +111,7 @@ static void flush_classes(ctx *c) {
                                                "input.truncated",
                                                "input.fullLength",
                                                "input.fullValid",
-                                               "bitmap.unknownTypeAccepted"};
+                                               "elias.padbits.unknownBitOrder"};
     int boolish = c->entry == E_TAGGED || c->entry == E_DICT ||
                   c->entry == E_BITMAP;
     for (int i = 0; i < K_COUNT; i++) {
@@ -116,15 +130,19 @@ static void flush_classes(ctx *c) {
     }
 }
 
-/* what is known about the input when it derives from a valid encoding */
+/* what is known about the input when it is an encoding produced by the
+ * library's own encoder, or a prefix of one */
 typedef struct expect {
     const uint64_t *v; /* original values (dict, Elias) */
     size_t n;
     int full;            /* the complete, unmodified encoding */
-    const size_t *marks; /* Elias: bit offset just after code i;
-                            RLE: byte offset of the value varint of run i */
+    const size_t *marks; /* Elias: bit offset just after code i (sums of
+                            varintElias*Bits); RLE: byte offset at which run i
+                            starts (walk with varintRLEDecodeRun) */
     size_t nmarks;
-    const varintBitmap *src; /* bitmap: the encoded set */
+    const uint8_t *set; /* bitmap: the encoded set as a 65536-bit vector, read
+                           from the source object through the iterator */
+    uint32_t setcard;
 } expect;
 
 typedef struct outcome {
@@ -180,6 +198,59 @@ static size_t count_le(const size_t *m, size_t n, size_t x) {
         }
     }
     return lo;
+}
+
+/* members of a bitmap object as seen through the public iterator (bounded:
+ * a set of 16-bit values has at most 65536 members).  0 = the iteration is
+ * not strictly ascending or does not end */
+static int bm_members(const varintBitmap *vb, uint8_t *bits /* 8192 */,
+                      uint32_t *count, char *why, size_t whyn) {
+    memset(bits, 0, 8192);
+    varintBitmapIterator it = varintBitmapCreateIterator(vb);
+    int64_t prev = -1;
+    uint32_t cnt = 0;
+    while (varintBitmapIteratorNext(&it)) {
+        if (++cnt > 65536) {
+            snprintf(why, whyn, "the iterator yields more than 65536 values");
+            return 0;
+        }
+        if ((int64_t)it.currentValue <= prev) {
+            snprintf(why, whyn, "the iterator yields %u after %lld",
+                     it.currentValue, (long long)prev);
+            return 0;
+        }
+        prev = it.currentValue;
+        bits[it.currentValue >> 3] |= (uint8_t)(1u << (it.currentValue & 7));
+    }
+    *count = cnt;
+    return 1;
+}
+
+/* which bits of a stream's last byte lie behind k (1..7) used bits of that
+ * byte.  Asked from the library's own bit writer (k one-bits written after one
+ * full byte) instead of assuming a bit order; 0 = no usable answer */
+static uint8_t pad_mask(unsigned k) {
+    static uint8_t mask[8];
+    static int have;
+    if (!have) {
+        for (unsigned j = 1; j < 8; j++) {
+            uint8_t b[32];
+            varintBitWriter w;
+            memset(b, 0, sizeof(b));
+            varintBitWriterInit(&w, b, sizeof(b));
+            for (unsigned i = 0; i < 8 + j; i++) {
+                varintBitWriterWrite(&w, 1, 1);
+            }
+            int ok = b[0] == 0xff &&
+                     (unsigned)__builtin_popcount(b[1]) == j;
+            for (size_t i = 2; i < sizeof(b); i++) {
+                ok = ok && b[i] == 0;
+            }
+            mask[j] = ok ? (uint8_t)~b[1] : 0;
+        }
+        have = 1;
+    }
+    return mask[k & 7];
 }
 
 static int alloc_check(ctx *c, size_t len) {
@@ -248,14 +319,11 @@ static int run_decoder(ctx *c, const uint8_t *in, size_t len, size_t bits,
         oc->null = out == NULL;
         if (out && !bad) {
             oc->ret = cnt;
-            if (cnt > len) {
-                hexhead(hx, sizeof(hx), in, len);
-                FAIL(c, "count", "bound",
-                     "varintDictDecode(%s, len=%zu) reports %zu values; every "
-                     "value needs at least one index byte inside the input",
-                     hx, len, cnt);
-                bad = 1;
-            } else if (e && e->v) {
+            /* how many values a given number of bytes can carry is a matter
+             * of the (unfixed) dictionary layout: no count/len bound here.  A
+             * count the input cannot back shows as an over-read (redzone /
+             * tail differential) or as an oversized allocation */
+            if (e && e->v) {
                 if (cnt > e->n) {
                     FAIL(c, "prefix", "count",
                          "prefix of %zu bytes of a valid encoding of %zu values "
@@ -328,12 +396,15 @@ static int run_decoder(ctx *c, const uint8_t *in, size_t len, size_t bits,
                  r, cap);
             bad = 1;
         }
-        if (!bad && r > unit) {
+        /* Elias gamma / delta are defined codes, not a layout choice: every
+         * code has at least one bit, so more values than declared bits means
+         * bits outside the declared input were consumed.  (No such bound for
+         * the dictionary decoder: values per byte is a layout matter.) */
+        if (!bad && c->entry != E_DICTINTO && r > unit) {
             hexhead(hx, sizeof(hx), in, len);
             FAIL(c, "count", "bound",
-                 "%s(%s) returned %zu values from a declared input of %zu %s",
-                 g_ename[c->entry], hx, r, unit,
-                 c->entry == E_DICTINTO ? "bytes" : "bits");
+                 "%s(%s) returned %zu values from a declared input of %zu bits",
+                 g_ename[c->entry], hx, r, unit);
             bad = 1;
         }
         if (!bad && e && e->v) {
@@ -386,70 +457,79 @@ static int run_decoder(ctx *c, const uint8_t *in, size_t len, size_t bits,
         int bad = alloc_check(c, len);
         oc->null = vb == NULL;
         if (vb && !bad) {
-            unsigned type = (unsigned)vb->type;
-            uint64_t card = vb->cardinality;
-            uint64_t need = 0, payload = 0;
-            const void *content = NULL;
-            int knowntype = 1;
-            switch (type) {
-            case VARINT_BITMAP_ARRAY:
-                payload = 2 * card;
-                need = 5 + payload;
-                content = vb->container.array.values;
-                break;
-            case VARINT_BITMAP_BITMAP:
-                payload = VARINT_BITMAP_BITMAP_SIZE;
-                need = 5 + payload;
-                content = vb->container.bitmap.bits;
-                break;
-            case VARINT_BITMAP_RUNS:
-                payload = 4 * (uint64_t)vb->container.runs.numRuns;
-                need = 9 + payload;
-                content = vb->container.runs.runs;
-                break;
-            default:
-                knowntype = 0;
-                c->k[K_UNKNOWNTYPE]++;
-                break;
-            }
-            oc->ret = (size_t)(card ^ ((uint64_t)type << 40));
-            if (knowntype && need > len) {
-                hexhead(hx, sizeof(hx), in, len);
-                FAIL(c, "backing", "bound",
-                     "varintBitmapDecode(%s, len=%zu) returned a type-%u "
-                     "container with cardinality %llu whose content needs %llu "
-                     "input bytes",
-                     hx, len, type, (unsigned long long)card,
-                     (unsigned long long)need);
-                bad = 1;
-            } else if (knowntype) {
-                oc->h = vf_hash_bytes(type, content, (size_t)payload);
-                if (e && e->src) {
-                    const varintBitmap *s = e->src;
-                    const void *sc =
-                        s->type == VARINT_BITMAP_ARRAY
-                            ? (const void *)s->container.array.values
-                        : s->type == VARINT_BITMAP_BITMAP
-                            ? (const void *)s->container.bitmap.bits
-                            : (const void *)s->container.runs.runs;
-                    if ((unsigned)s->type != type || s->cardinality != card ||
-                        (type == VARINT_BITMAP_RUNS &&
-                         s->container.runs.numRuns !=
-                             vb->container.runs.numRuns) ||
-                        memcmp(sc, content, (size_t)payload) != 0) {
-                        FAIL(c, "prefix", "value",
-                             "decode of %zu bytes of a valid type-%u encoding "
-                             "(cardinality %u) gave type %u cardinality %llu "
-                             "with different content",
-                             len, (unsigned)s->type, s->cardinality, type,
-                             (unsigned long long)card);
+            /* the object is looked at through the public API only; which
+             * container it uses, and which wire form it came from, is not
+             * observable (C08) */
+            uint32_t card = varintBitmapCardinality(vb);
+            oc->ret = card;
+            if (e && e->set) {
+                /* (a prefix of) what varintBitmapEncode wrote for a set built
+                 * through the API: the complete encoding gives the set back, a
+                 * shorter input that is accepted all the same gives a short
+                 * result, i.e. no member the set does not have */
+                uint8_t *got = (uint8_t *)malloc(8192);
+                uint32_t cnt = 0;
+                char why[96];
+                if (!got) {
+                    abort();
+                }
+                if (!bm_members(vb, got, &cnt, why, sizeof(why))) {
+                    FAIL(c, e->full ? "full" : "prefix", "value",
+                         "decode of %zu of %s bytes that varintBitmapEncode "
+                         "wrote for a set of %u members: %s",
+                         len, e->full ? "all" : "the", e->setcard, why);
+                    bad = 1;
+                } else if (cnt != card) {
+                    FAIL(c, e->full ? "full" : "prefix", "value",
+                         "decode of %zu of %s bytes that varintBitmapEncode "
+                         "wrote for a set of %u members: cardinality %u, "
+                         "iteration yields %u values",
+                         len, e->full ? "all" : "the", e->setcard, card, cnt);
+                    bad = 1;
+                } else {
+                    int extra = -1, missing = -1;
+                    for (uint32_t i = 0; i < 8192 && (extra < 0 || missing < 0);
+                         i++) {
+                        uint8_t x = (uint8_t)(got[i] & ~e->set[i]);
+                        uint8_t m = (uint8_t)(e->set[i] & ~got[i]);
+                        if (x && extra < 0) {
+                            extra = (int)(i * 8 + (uint32_t)__builtin_ctz(x));
+                        }
+                        if (m && missing < 0) {
+                            missing = (int)(i * 8 + (uint32_t)__builtin_ctz(m));
+                        }
+                    }
+                    if (extra >= 0) {
+                        FAIL(c, e->full ? "full" : "prefix",
+                             e->full ? "roundtrip" : "value",
+                             "decode of %zu of %s bytes that varintBitmapEncode "
+                             "wrote for a set of %u members gave %u members, "
+                             "among them %d, which the set does not contain",
+                             len, e->full ? "all" : "the", e->setcard, card,
+                             extra);
+                        bad = 1;
+                    } else if (e->full && missing >= 0) {
+                        FAIL(c, "full", "roundtrip",
+                             "the complete encoding (%zu bytes) of a set of %u "
+                             "members decodes to %u members; %d is missing",
+                             len, e->setcard, card, missing);
                         bad = 1;
                     }
                 }
+                if (!bad) {
+                    oc->h = vf_hash_bytes(card, got, 8192);
+                }
+                free(got);
             }
+            /* anything else is arbitrary input: whatever object the decoder
+             * made of it is fine, and nothing beyond its cardinality is asked
+             * of it (members of an object decoded from malformed bytes are
+             * nobody's property) */
         } else if (!vb && !bad && e && e->full) {
             FAIL(c, "full", "roundtrip",
-                 "complete valid bitmap encoding (%zu bytes) rejected", len);
+                 "complete bitmap encoding (%zu bytes, written by "
+                 "varintBitmapEncode for a set of %u members) rejected",
+                 len, e->setcard);
             bad = 1;
         }
         if (vb) {
@@ -460,28 +540,23 @@ static int run_decoder(ctx *c, const uint8_t *in, size_t len, size_t bits,
     default: { /* E_RLE */
         size_t r = varintRLEGetRunCount(in, len);
         oc->ret = r;
-        if (r > len / 2) {
-            hexhead(hx, sizeof(hx), in, len);
-            FAIL(c, "count", "bound",
-                 "varintRLEGetRunCount(%s, encodedSize=%zu) = %zu; a run takes "
-                 "at least two bytes inside the input",
-                 hx, len, r);
-            return 1;
-        }
+        /* (bytes per run are a layout matter: no count/len bound) */
         if (e && e->marks) {
-            /* runs whose length varint and first value byte lie inside */
+            /* runs that start inside the prefix, run boundaries as the
+             * library's own single-run decoder walks them */
             size_t most = len ? count_le(e->marks, e->nmarks, len - 1) : 0;
             if (r > most) {
                 FAIL(c, "prefix", "count",
-                     "%zu runs counted in a %zu-byte prefix of a valid encoding "
-                     "in which only %zu runs start (length and first value "
-                     "byte) inside the prefix",
+                     "%zu runs counted in a %zu-byte prefix of an encoding "
+                     "written by varintRLEEncode in which only %zu runs start "
+                     "inside the prefix",
                      r, len, most);
                 return 1;
             }
             if (e->full && r != e->nmarks) {
                 FAIL(c, "full", "roundtrip",
-                     "complete valid encoding of %zu runs: %zu counted",
+                     "complete encoding of %zu runs (encoder's meta and a walk "
+                     "with varintRLEDecodeRun agree): %zu counted",
                      e->nmarks, r);
                 return 1;
             }
@@ -523,11 +598,18 @@ static int eval_input(ctx *c, const uint8_t *bytes, size_t len, size_t bits,
                                                        : o0.ret != 0]++;
     /* Elias: bits of the last byte after the declared bit count are outside
      * the input; the result must not depend on them */
+    uint8_t pm = 0;
     if ((c->entry == E_GAMMA || c->entry == E_DELTA) && (bits & 7) && len) {
+        pm = pad_mask((unsigned)(bits & 7));
+        if (!pm) {
+            c->k[K_PADUNKNOWN]++;
+        }
+    }
+    if (pm) {
         outcome o1;
         in = (uint8_t *)vf_exact_alloc(len);
         memcpy(in, bytes, len);
-        in[len - 1] ^= (uint8_t)(0xffu >> (bits & 7));
+        in[len - 1] ^= pm;
         bad = run_decoder(c, in, len, bits, cap, e, &o1);
         vf_exact_free(in);
         if (bad) {
@@ -748,32 +830,50 @@ static uint8_t *splice(const uint8_t *buf, size_t len, size_t off, size_t oldw,
 }
 
 /* --------------------------------------------------- valid encodings */
+/* what the library's own encoder wrote for the generated array / set */
 typedef struct enc {
     uint8_t *buf;
+    size_t cap;  /* bytes allocated for buf (>= len + 32, zero filled behind
+                    len: the generator's layout walkers may look there) */
     size_t len;  /* bytes */
     size_t bits; /* Elias: total bits */
-    size_t *marks;
+    size_t *marks; /* oracle side, from the library (see expect.marks) */
     size_t nmarks;
-    varintBitmap *src;
+    uint8_t *set; /* bitmap: members of the source object */
+    uint32_t setcard;
+    /* generator side only (hostile constructions): RLE value-varint offsets
+     * from the presently documented layout [tagged length][tagged value];
+     * gen_ok = that walk ended exactly at len */
+    size_t *gmarks;
+    size_t ngmarks;
+    int gen_ok;
 } enc;
 
 static void enc_free(enc *x) {
     free(x->buf);
     free(x->marks);
-    if (x->src) {
-        varintBitmapFree(x->src);
-    }
+    free(x->gmarks);
+    free(x->set);
     memset(x, 0, sizeof(*x));
+}
+
+static void enc_alloc(enc *x, size_t cap) {
+    x->cap = cap + 32;
+    x->buf = (uint8_t *)calloc(x->cap, 1);
+    if (!x->buf) {
+        abort();
+    }
 }
 
 /* returns 0 when the case has to be discarded */
 static int build_valid(ctx *c, const vf_arr *a, enc *x) {
     size_t n = a->n;
     memset(x, 0, sizeof(*x));
+    x->gen_ok = 1;
     switch (c->entry) {
     case E_DICT:
     case E_DICTINTO:
-        x->buf = (uint8_t *)malloc(40 + 17 * n);
+        enc_alloc(x, 40 + 17 * n);
         x->len = varintDictEncode(x->buf, a->v, n);
         if (x->len == 0 || x->len > 40 + 17 * n) {
             vf_discard("dict-encode-failed");
@@ -787,21 +887,23 @@ static int build_valid(ctx *c, const vf_arr *a, enc *x) {
             g ? varintEliasGammaMaxBytes(n) : varintEliasDeltaMaxBytes(n);
         varintEliasMeta meta;
         memset(&meta, 0, sizeof(meta));
-        x->buf = (uint8_t *)malloc(maxb + 1);
+        enc_alloc(x, maxb + 1);
         x->len = g ? varintEliasGammaEncodeArray(x->buf, a->v, n, &meta)
                    : varintEliasDeltaEncodeArray(x->buf, a->v, n, &meta);
         x->bits = meta.totalBits;
+        /* bit offset behind each code: the code lengths the library itself
+         * reports (they are also the textbook ones), cross-checked against
+         * the total the encoder reported */
         x->marks = (size_t *)malloc(n * sizeof(size_t));
         x->nmarks = n;
         size_t acc = 0;
-        char tmp[160];
         for (size_t i = 0; i < n; i++) {
-            acc += g ? vf_ref_gamma_bits(a->v[i], tmp)
-                     : vf_ref_delta_bits(a->v[i], tmp);
+            acc += g ? varintEliasGammaBits(a->v[i])
+                     : varintEliasDeltaBits(a->v[i]);
             x->marks[i] = acc;
         }
         if (acc != x->bits || x->len != (acc + 7) / 8) {
-            /* encoder and textbook code lengths disagree: C02/C16 territory */
+            /* encoder and its own code lengths disagree: C02/C16 territory */
             vf_discard("elias-bit-count-mismatch");
             return 0;
         }
@@ -812,51 +914,91 @@ static int build_valid(ctx *c, const vf_arr *a, enc *x) {
         if (!vb) {
             abort();
         }
-        int runs = 0;
+        /* classes name how the set was built, not the container that holds
+         * it (which one does is the library's business) */
+        const char *cls = n > 4096 ? "bitmap.valid.large" : "bitmap.valid.small";
         if ((c->capsel & 3) == 3 && a->v[0] + 4097 <= 65535) {
-            /* one run of more than 4096 members: RUNS container */
+            /* one range of more than 4096 consecutive members */
             uint64_t room = 65535 - 4097 - a->v[0];
             uint64_t max = a->v[0] + 4097 + a->v[n - 1] % (room + 1);
             varintBitmapAddRange(vb, (uint16_t)a->v[0], (uint16_t)max);
-            runs = 1;
-        }
-        if (!runs) {
+            cls = "bitmap.valid.range";
+        } else {
             for (size_t i = 0; i < n; i++) {
                 varintBitmapAdd(vb, (uint16_t)a->v[i]);
             }
         }
-        x->src = vb;
-        x->buf = (uint8_t *)malloc(16 + VARINT_BITMAP_BITMAP_SIZE + 4 * n);
+        /* the set that is being serialised, as the public API shows it */
+        char why[96];
+        x->set = (uint8_t *)malloc(8192);
+        if (!x->set) {
+            abort();
+        }
+        if (!bm_members(vb, x->set, &x->setcard, why, sizeof(why)) ||
+            x->setcard != varintBitmapCardinality(vb)) {
+            /* an inconsistent source object is C08's finding, not ours */
+            varintBitmapFree(vb);
+            vf_discard("bitmap-source-inconsistent");
+            return 0;
+        }
+        /* generous: no known form of a set of 16-bit values needs more than
+         * 8 KiB + a few bytes per member */
+        size_t cap = 64 + 2 * VARINT_BITMAP_BITMAP_SIZE + 8 * (size_t)x->setcard;
+        enc_alloc(x, cap);
         x->len = varintBitmapEncode(vb, x->buf);
-        vf_class(vb->type == VARINT_BITMAP_ARRAY    ? "bitmap.valid.array"
-                 : vb->type == VARINT_BITMAP_BITMAP ? "bitmap.valid.bitmap"
-                                                    : "bitmap.valid.runs");
+        varintBitmapFree(vb);
+        if (x->len == 0 || x->len > cap) {
+            vf_discard("bitmap-encode-size");
+            return 0;
+        }
+        vf_class(cls);
         return 1;
     }
     default: { /* E_RLE */
         varintRLEMeta meta;
         memset(&meta, 0, sizeof(meta));
-        x->buf = (uint8_t *)malloc(32 + 18 * n);
+        enc_alloc(x, 32 + 18 * n);
         x->len = varintRLEEncode(x->buf, a->v, n, &meta);
-        /* offsets of each run's value varint, from the documented layout
-         * [tagged run length][tagged value] */
-        x->marks = (size_t *)malloc(n * sizeof(size_t));
+        if (x->len == 0 || x->len > 32 + 18 * n) {
+            vf_discard("rle-encode-size");
+            return 0;
+        }
+        /* oracle side: where each run starts, walked with the library's own
+         * single-run decoder over the bytes its encoder wrote; must end at
+         * len and agree with the run count the encoder reported */
+        x->marks = (size_t *)malloc((n + 1) * sizeof(size_t));
         size_t off = 0, runs = 0;
+        while (off < x->len && runs < n) {
+            size_t rl = 0;
+            uint64_t val = 0;
+            size_t used = varintRLEDecodeRun(x->buf + off, &rl, &val);
+            if (used == 0 || used > x->len - off) {
+                break;
+            }
+            x->marks[runs++] = off;
+            off += used;
+        }
+        x->nmarks = runs;
+        if (off != x->len || runs != meta.runCount) {
+            vf_discard("rle-walk-mismatch"); /* C02/C16 territory */
+            return 0;
+        }
+        /* generator side: value-varint offsets by the documented layout */
+        x->gmarks = (size_t *)malloc(n * sizeof(size_t));
+        off = 0;
+        runs = 0;
         for (size_t i = 0; i < n;) {
             size_t j = i;
             while (j < n && a->v[j] == a->v[i]) {
                 j++;
             }
             off += vf_ref_len(VF_TAGGED, j - i);
-            x->marks[runs++] = off;
+            x->gmarks[runs++] = off;
             off += vf_ref_len(VF_TAGGED, a->v[i]);
             i = j;
         }
-        x->nmarks = runs;
-        if (off != x->len) {
-            vf_discard("rle-size-mismatch");
-            return 0;
-        }
+        x->ngmarks = runs;
+        x->gen_ok = off == x->len;
         return 1;
     }
     }
@@ -867,7 +1009,8 @@ static unsigned put_tagged(uint8_t *o, uint64_t v) {
     return vf_ref_encode(VF_TAGGED, v, o);
 }
 
-/* replaces x->buf by a hostile variant; returns a short label */
+/* replaces x->buf by a hostile variant; returns a short label, or NULL when
+ * the case was discarded */
 static const char *make_hostile(ctx *c, vf_rd *r, enc *x, char *lab,
                                 size_t labn) {
     unsigned field = vf_u8(r);
@@ -878,16 +1021,27 @@ static const char *make_hostile(ctx *c, vf_rd *r, enc *x, char *lab,
     switch (c->entry) {
     case E_DICT:
     case E_DICTINTO: {
-        /* walk the valid layout [dictSize][entries][count][indices] */
+        /* walk the presently documented layout [dictSize][entries][count]
+         * [indices] to find the fields worth attacking (generator knowledge
+         * only; x->buf has 32 zero bytes behind len, so a walk that does not
+         * fit a changed layout stays inside the block and is given up) */
         uint64_t D = 0, cnt = 0, tmp;
         size_t off = vf_ref_decode(VF_TAGGED, x->buf, 0, &D);
         size_t w0 = off;
-        for (uint64_t i = 0; i < D; i++) {
+        for (uint64_t i = 0; i < D && off < x->len; i++) {
             off += vf_ref_decode(VF_TAGGED, x->buf + off, 0, &tmp);
+        }
+        if (off >= x->len) {
+            vf_discard("dict-layout-walk");
+            return NULL;
         }
         size_t offC = off;
         size_t wC = vf_ref_decode(VF_TAGGED, x->buf + off, 0, &cnt);
         size_t offI = offC + wC;
+        if (offI > x->len) {
+            vf_discard("dict-layout-walk");
+            return NULL;
+        }
         unsigned f = field % 4;
         if (f == 0 || f == 3) {
             uint64_t hv = hostile_u64(r, hsel, D, x->len);
@@ -1034,7 +1188,14 @@ static const char *make_hostile(ctx *c, vf_rd *r, enc *x, char *lab,
         break;
     }
     case E_BITMAP: {
+        /* header fields of the presently used wire forms ([type:1]
+         * [cardinality:4] then members / bits / [numRuns:4] runs) overwritten
+         * in whatever the encoder wrote; at least 9 bytes so that all of them
+         * exist (zero filled behind len) */
         unsigned f = field % 4;
+        if (x->len < 9) {
+            x->len = 9;
+        }
         size_t pay = x->len - 5;
         uint32_t card;
         memcpy(&card, x->buf + 1, 4);
@@ -1083,14 +1244,18 @@ static const char *make_hostile(ctx *c, vf_rd *r, enc *x, char *lab,
         break;
     }
     case E_RLE: {
-        size_t j = vf_u8(r) % x->nmarks;
-        size_t vs = x->marks[j]; /* value varint of run j */
+        if (!x->gen_ok || !x->ngmarks) {
+            vf_discard("rle-layout-walk");
+            return NULL;
+        }
+        size_t j = vf_u8(r) % x->ngmarks;
+        size_t vs = x->gmarks[j]; /* value varint of run j */
         uint64_t rl = 0, val = 0;
         /* run j starts where the previous value ends */
         size_t rs = 0;
         if (j) {
-            rs = x->marks[j - 1] +
-                 vf_ref_decode(VF_TAGGED, x->buf + x->marks[j - 1], 0, &val);
+            rs = x->gmarks[j - 1] +
+                 vf_ref_decode(VF_TAGGED, x->buf + x->gmarks[j - 1], 0, &val);
         }
         size_t lw = vf_ref_decode(VF_TAGGED, x->buf + rs, 0, &rl);
         size_t vw = vf_ref_decode(VF_TAGGED, x->buf + vs, 0, &val);
@@ -1310,7 +1475,13 @@ static void run_structured(ctx *c, vf_rd *r) {
         intact = 0;
         vf_class("mutate.applied");
     } else if (c->mode == M_HOSTILE) {
-        make_hostile(c, r, &x, lab, sizeof(lab));
+        if (!make_hostile(c, r, &x, lab, sizeof(lab))) {
+            /* the generator's layout walk did not fit what the encoder wrote
+             * (discarded and counted) */
+            enc_free(&x);
+            vf_arr_free(&a);
+            return;
+        }
         fullunits = elias ? x.bits : x.len;
         intact = 0;
     }
@@ -1318,8 +1489,8 @@ static void run_structured(ctx *c, vf_rd *r) {
             elias ? "bits" : "bytes", trunc, lab[0] ? " " : "", lab);
 
     size_t natural = a.n;
-    if (c->entry == E_BITMAP && x.src) {
-        natural = x.src->cardinality;
+    if (c->entry == E_BITMAP) {
+        natural = x.setcard;
     }
     size_t cap = pick_cap(c->capsel, natural);
     if (!intact && elias && c->capsel == 0) {
@@ -1358,13 +1529,16 @@ static void run_structured(ctx *c, vf_rd *r) {
         expect e;
         memset(&e, 0, sizeof(e));
         const expect *ep = NULL;
+        /* only bytes that the library's own encoder wrote, untouched, carry
+         * expectations about what decoding them gives */
         if (intact) {
             e.v = (c->entry == E_BITMAP || c->entry == E_RLE) ? NULL : a.v;
             e.n = a.n;
             e.full = units == fullunits;
             e.marks = x.marks;
             e.nmarks = x.nmarks;
-            e.src = x.src;
+            e.set = x.set;
+            e.setcard = x.setcard;
             ep = &e;
         }
         if (i) {
